@@ -11,6 +11,10 @@
 //         sweep items:  B:<k>  S:<from>:<to>:<step>  O:<from>:<to>:<step>  X:<seed>:<count>:<maxout>
 //                       R:<seed0>:<count>:<npieces>:<maxin>:<maxout>:<pzero>  L:<in>,<out>;...
 //                       N (toggle NULL pointers for empty windows)  F (fresh stream for every run from here on)
+//                       G (first item only: use the process-wide lzma_stream that is never lzma_end()ed between ops, so this
+//                          sweep starts on a handle last used by another coder)   FW (whole-buffer run on a brand-new stream,
+//                          compared with the reference)   K:<p>:<calls> (run S:<p> for <calls> calls and abandon it mid-stream;
+//                          not compared; the next run re-initialises the abandoned handle)
 //   small-coder ops (tie to the Lean model; see c06_small.c): vlid, vlie, simple, delta, bufcpy
 //
 // Coder specs (':' separated; a filter chain is always the last field):
@@ -444,6 +448,8 @@ typedef struct {
 	bool hung;   // a run did not terminate: the remaining items of this sweep are skipped (each would wait again)
 } sweep;
 
+static lzma_stream g_strm = LZMA_STREAM_INIT;   // process-wide handle for 'G' sweeps
+
 static void sweep_one(sweep *s, const char *spec)
 {
 	c06_slicing sl;
@@ -487,12 +493,14 @@ int main(void)
 				if (!c06_slicing_parse(spec, &sl)) { printf("bad-slicing "); continue; }
 				if (fresh) { lzma_end(&strm); lzma_stream z = LZMA_STREAM_INIT; strm = z; }
 				do_run(&c, &strm, in, n, &sl, fin, &r);
+				if (i == 6) c06_out_limit = 2 * r.out_len + 65536;   // later runs are compared with the first one
 				if (i > 6) printf(" | ");
 				print_result(&r, full);
 				c06_slicing_free(&sl);
 				i06_null_in = saved;
 			}
 			printf("\n");
+			c06_out_limit = (size_t)256 << 20;
 			lzma_end(&strm);
 			c06_result_free(&r);
 			if (c.block_filters_live) lzma_filters_free(c.block_filters, NULL);
@@ -512,10 +520,13 @@ int main(void)
 			s.in = in; s.in_len = n;
 			s.cmp = l.tok[4][0];
 			i06_null_in = false;
+			bool global = l.ntok > 5 && !strcmp(l.tok[5], "G");
+			if (global) s.strm = g_strm;
 			c06_slicing w;
 			c06_slicing_parse("W", &w);
 			do_run(&c, &s.strm, in, n, &w, s.fin, &s.ref);
 			if (s.ref.ret == C06_HANG) s.hung = true;
+			c06_out_limit = 2 * s.ref.out_len + 65536;
 			char buf[256];
 			// the text before the diffs is printed last; collect diffs first
 			// (diff fragments are written directly, so print the header now)
@@ -525,6 +536,30 @@ int main(void)
 				const char *it = l.tok[i];
 				if (!strcmp(it, "N")) { i06_null_in = !i06_null_in; continue; }
 				if (!strcmp(it, "F")) { s.fresh = true; continue; }
+				if (!strcmp(it, "G")) continue;
+				if (!strcmp(it, "FW")) {
+					// whole-buffer run on a brand-new handle must equal the reference (which may have run on a reused one)
+					lzma_stream keep = s.strm;
+					lzma_stream z2 = LZMA_STREAM_INIT;
+					s.strm = z2;
+					sweep_one(&s, "W");
+					lzma_end(&s.strm);
+					s.strm = keep;
+					continue;
+				}
+				if (it[0] == 'K' && it[1] == ':') {
+					unsigned long long p, calls;
+					if (sscanf(it + 2, "%llu:%llu", &p, &calls) != 2) { printf(" bad-item=%s", it); continue; }
+					if (s.hung) continue;
+					snprintf(buf, sizeof(buf), "S:%llu", p);
+					c06_slicing ks;
+					c06_slicing_parse(buf, &ks);
+					c06_abandon_after = calls ? calls : 1;
+					do_run(&c, &s.strm, in, n, &ks, s.fin, &s.cur);
+					c06_abandon_after = 0;
+					c06_slicing_free(&ks);
+					continue;
+				}
 				if (it[0] == 'S' || it[0] == 'O') {
 					unsigned long long from, to, step;
 					int nn = sscanf(it + 2, "%llu:%llu:%llu", &from, &to, &step);
@@ -555,7 +590,8 @@ int main(void)
 				}
 			}
 			printf(" ms=%.0f runs=%lu diffs=%lu\n", (c06_now() - t_start) * 1000.0, s.runs, s.diffs);
-			lzma_end(&s.strm);
+			c06_out_limit = (size_t)256 << 20;
+			if (global) g_strm = s.strm; else lzma_end(&s.strm);
 			c06_result_free(&s.ref);
 			c06_result_free(&s.cur);
 			if (c.block_filters_live) lzma_filters_free(c.block_filters, NULL);
@@ -568,6 +604,7 @@ int main(void)
 		}
 		fflush(stdout);
 	}
+	lzma_end(&g_strm);
 	hp_done(&l);
 	return 0;
 }
